@@ -82,6 +82,14 @@ def feature_programs():
         out.append((name + "_sub", {"feat/sub.proto": 'syntax = "proto3";\npackage feat.sub;\n' + imports + rest + "\n",
                                      "feat.proto": 'syntax = "proto3";\npackage feat;\nimport "feat/sub.proto";\nmessage Top { feat.sub.%s x = 1; }\n'
                                      % ("M" if "message M " in rest else "A" if "message A " in rest else "N")}))
+    # the same well-known / wrapper type used by several packages of one run, each of which uses nothing else that needs the
+    # typing imports (what the compiler does for the first package must be done for the others too)
+    for label, imp, ty in (("wrapper", "google/protobuf/wrappers.proto", "google.protobuf.Int64Value"), ("wrapper_str", "google/protobuf/wrappers.proto", "google.protobuf.StringValue"),
+                           ("timestamp", "google/protobuf/timestamp.proto", "google.protobuf.Timestamp")):
+        out.append(("%s_in_three_packages" % label, {
+            "feat/a/a.proto": 'syntax = "proto3";\npackage feat.a;\nimport "%s";\nmessage A { %s w = 1; }\n' % (imp, ty),
+            "feat/b/b.proto": 'syntax = "proto3";\npackage feat.b;\nimport "%s";\nmessage B { %s w = 1; }\n' % (imp, ty),
+            "zz/c.proto": 'syntax = "proto3";\npackage zz;\nimport "%s";\nmessage C { %s w = 1; int32 n = 2; }\n' % (imp, ty)}))
     return out
 
 
